@@ -280,3 +280,6 @@ def run(repo: Repo, rep: Report, tier: str) -> None:
     codec_key_rule(repo, rep, "C05.R3")
     type_table_rule(repo, rep, "C05.R4")
     leb128_rule(repo, rep, "C05.R5")
+    from .c02 import leb128_termination_rule
+
+    leb128_termination_rule(repo, rep, "C05.R6")
